@@ -6,10 +6,28 @@ import (
 
 func installHooks(k *Kernel) {
 	simsync.Reset()
+	if k.Free {
+		// written once per process: goroutines left over from an earlier run may still read them
+		if simsync.Hook != nil {
+			simsync.Hook = nil
+		}
+		if simsync.Track {
+			simsync.Track = false
+		}
+		freeMode = true
+		return
+	}
+	simsync.Track = true
 	simsync.Hook = func(kind, site string) { k.Yield(kind, site) }
 }
 
-func uninstallHooks() { simsync.Hook = nil }
+var freeMode bool
+
+func uninstallHooks() {
+	if !freeMode {
+		simsync.Hook = nil
+	}
+}
 
 // lockState reports held locks and blocked acquisitions (C18 oracles).
 func lockState() (held, waiting []string) { return simsync.Held(), simsync.Waiting() }
